@@ -4,10 +4,12 @@ Snapshot monitor: deep structural snapshot of the caller's object before and
 after each of two dumps; the two texts must be identical; the snapshot may
 differ only by the PDS3 encoder's documented in-place change of a top-level
 PVLGroup into a PVLObject holding the same items at the same position."""
+import io
 import random
 
 from .. import common
-from ..gen_values import DIALECTS, gen_module, gen_config, make_encoder, gen_value
+from ..gen_values import (DIALECTS, gen_module, gen_config, make_encoder, gen_value,
+                          strict_parser)
 from ..normalise import snapshot
 
 CHECK = "C13"
@@ -116,6 +118,21 @@ def one(rec, pvl, dialect, cfg, module, wit, via):
             # work: long labels are written in the OTHER dialects (state shared
             # between classes must not change what this dump returns)
             interfere(pvl, dialect)
+            # ... and the SAME encoder instance writes another module through
+            # pvl.dumps / pvl.dump with other settings given alongside it
+            other = _INTERFERENCE["m"]
+            og = strict_parser(pvl, "ODL" if dialect != "ODL" else "PVL")
+            for kw in ({"indent": 5, "width": 33, "aggregation_end": False},
+                       {"grammar": og.grammar, "decoder": og.decoder}):
+                try:
+                    pvl.dumps(other, encoder=enc, **kw)
+                except Exception:
+                    pass
+                try:
+                    pvl.dump(other, io.StringIO(), encoder=enc, **kw)
+                except Exception:
+                    pass
+            rec.count("same_instance_used_for_another_module_with_other_settings")
         try:
             if via == "dumps" and call >= 1:
                 t = pvl.dumps(module, encoder=make_encoder(pvl, dialect, cfg))
@@ -128,10 +145,9 @@ def one(rec, pvl, dialect, cfg, module, wit, via):
         texts.append(t)
         snaps.append(snapshot(module))
     rec.count("dump_pairs")
-    feats = {"top_level_groups": any(v[0] == "PVLGroup" for _, v in s0[1])
-             if isinstance(s0[1], tuple) and s0[0] != "dict" else False,
-             "duplicate_top_level_names": len({k for k, _ in s0[1]}) != len(s0[1])
-             if s0[0] != "dict" else False}
+    feats = {"top_level_groups": any(v[0] == "PVLGroup" for _, v in s0[1]),
+             "duplicate_top_level_names": len({k for k, _ in s0[1]}) != len(s0[1]),
+             "plain_dict_argument": s0[0] == "dict"}
     total_conv = 0
     for idx in (1, 2, 3):
         ok, conv = allowed_change(snaps[idx - 1], snaps[idx], dialect)
@@ -170,7 +186,13 @@ def case(rec, pvl, dialect, key):
     elif r < 0.9:
         module, shape = gen_trigger(rng, col, dialect), "trigger"
     else:
-        module = {"a": 1, "g": {"x": [1, 2], "y": "t"}, "s": "two words"}
+        if rng.random() < 0.5:
+            module = {"a": 1, "g": {"x": [1, 2], "y": "t"}, "s": "two words"}
+        else:
+            # a plain dict whose only blocks are groups: the PDS3 encoder has
+            # to convert one in the caller's dict
+            module = {"a": 1, "g": col.PVLGroup([("x", [1, 2]), ("y", "t")]),
+                      "s": "two words", "h": col.PVLGroup([("z", 1)])}
         shape = "plain-dict"
     via = rng.choice(("encode", "dumps"))
     wit = {"dialect": dialect, "cfg": cfg, "seed": key, "shape": shape, "via": via,
